@@ -3,8 +3,9 @@ CONSTANTS
   Contracts = {3}
   JobIds = {1, 2}
   Chains = {1, 2, 3, 5}
-  Targets = {1, 2}
+  Targets = {1}
   Payloads = {1}
+  Spellings = {"bare", "odd"}
 INIT Init
 NEXT NextR
 VIEW MCView
